@@ -88,3 +88,8 @@ Definition hpath_eqb (a b : hpath) : bool :=
   end.
 Definition style_eqb (a b : style) : bool :=
   matcher_eqb (s_matcher a) (s_matcher b) && hpath_eqb (s_path a) (s_path b).
+
+(* ---- str.lower via the generated table ---- *)
+Definition lower_char (c : N) : str :=
+  match lookup_upper c lower_table with Some u => u | None => [c] end.
+Definition lower (s : str) : str := flat_map lower_char s.
